@@ -18,6 +18,20 @@ from .execstmt import StmtMixin
 from .source import STATIC_NAMES, SourceError, real_exception_class
 from . import builtins_impl
 
+class PyDict(Value):
+    """exec-time concrete keyword dict (**kwargs)"""
+    def __init__(self, d):
+        self.shape = None
+        self.d = dict(d)
+
+
+class _BoundExt(Value):
+    """python-implemented method of a declared (stdlib) class, bound to obj"""
+    def __init__(self, fn, obj):
+        self.shape = None
+        self.fn, self.obj = fn, obj
+
+
 GHOST_ID = -1
 _MISSING = object()
 
@@ -163,6 +177,9 @@ class Executor(EvalMixin, StmtMixin):
         decl = self.world.classes.get(obj.shape.cls)
         c = decl
         while c is not None:
+            if name in c.methods:
+                return VExternal('%s.%s' % (c.name, name), obj) if c.methods[name] is None else \
+                    _BoundExt(c.methods[name], obj)
             if c.module:
                 try:
                     ci = self.world.repo.find_class(c.module, c.pyname)
@@ -296,6 +313,9 @@ class Executor(EvalMixin, StmtMixin):
                 v = self.ev(k.value)
                 if isinstance(v, PyList) and not v.items:
                     continue
+                if isinstance(v, PyDict):
+                    kwargs.update(v.d)
+                    continue
                 raise Unsupported('**kwargs in call to %s' % fname)
             kwargs[k.arg] = self.ev(k.value)
         return self.call_value(fn, args, kwargs, fname)
@@ -323,6 +343,9 @@ class Executor(EvalMixin, StmtMixin):
         if isinstance(fn, VExternal):
             a = ([fn.self_obj] if fn.self_obj is not None else []) + args
             return self.call_external(fn.name, a, kwargs)
+        if isinstance(fn, _BoundExt):
+            self.root.call_log.append('%s.%s' % (fn.obj.shape.cls, getattr(fn.fn, '__name__', '?')))
+            return fn.fn(self, [fn.obj] + list(args), kwargs)
         if isinstance(fn, VBound):
             return builtins_impl.container_method(self, fn.obj, fn.name, args, kwargs)
         if isinstance(fn, VClass):
@@ -429,9 +452,8 @@ class Executor(EvalMixin, StmtMixin):
             else:
                 self.raise_('TypeError', 'missing keyword-only argument')
         if a.kwarg is not None:
-            if kwargs:
-                raise Unsupported('**kwargs receiving values')
-            sub.scopes[0][a.kwarg.arg] = PyList([])
+            sub.scopes[0][a.kwarg.arg] = PyDict(dict(kwargs)) if kwargs else PyList([])
+            kwargs.clear()
         elif kwargs:
             self.raise_('TypeError', '%s() got an unexpected keyword argument' % node.name)
 
@@ -556,6 +578,8 @@ class Executor(EvalMixin, StmtMixin):
             c = self.truthy(self.ev(node.args[0]))
             a, b = self.join2(self.ev(node.args[1]), self.ev(node.args[2]))
             return ite(c, a, b)
+        if fname == 'truthy':
+            return SV(BoolS, self.truthy(self.ev(node.args[0])))
         if fname == 'isnone':
             v = self.ev(node.args[0])
             return SV(BoolS, self.is_(v, SNone()))
